@@ -93,6 +93,12 @@ def bucket_program(rng):
               "    {r: reg} gets {v: u8} => 0x40 @ r @ v",
               "    r0 gets {v: u4} => 0x5 @ v",
               "}"]
+    if rng.random() < 0.3:
+        # a directive body with several unknown fields: one diagnostic per field, in source order
+        bad = rng.sample(["length", "origin", "pad", "algn", "fil", "outpt", "sise", "adr"], rng.randint(2, 5))
+        fields = ["#addr 0", "#size 0x10", "#outp 0"] + ["#%s %d" % (b, k) for k, b in enumerate(bad)]
+        rng.shuffle(fields)
+        return "#bankdef prog\n{\n" + "\n".join("    " + f for f in fields) + "\n}\n#d8 1\n"
     body = []
     for _ in range(rng.randint(1, 4)):
         body.append(rng.choice(["%s%s 0x12345" % (mn, sufs[0]), "%s%s 5" % (mn, sufs[0]), "%s%s -1" % (mn, sufs[0]), "%s%s 300" % (mn, sufs[1]),
